@@ -32,7 +32,7 @@ for name in names:
             continue
         env = dict(os.environ, QSIM_REPO=wt, OMP_NUM_THREADS="1")
         res = {}
-        budget = ["--budget", "4000"] if name == "C04-w3A" else []
+        budget = ["--budget", "4000"] if name == "C04-w3A" else ["--budget", "8000"] if name == "C04-w8S-mut1" else []
         pids = [meta["property"]] + [p_ for p_ in (meta.get("caught_by") or []) if p_ != meta["property"]]
         if meta.get("caught_by") and meta["property"] not in meta["caught_by"]:
             pids = list(meta["caught_by"])
